@@ -94,6 +94,7 @@ class Body:
         self._defs = None
         self._rd = None
         self._memo = {}
+        self._restrict = None
 
     # ------------------------------------------------------------------ CFG (K2)
     def term(self, bb):
@@ -315,7 +316,31 @@ class Body:
         IN = self.reaching()[bb]
         if IN is None:
             return []
-        return sorted(IN.get(local, ()), key=lambda x: (x[0], -1 if x[1] == "T" else x[1]))
+        out = sorted(IN.get(local, ()), key=lambda x: (x[0], -1 if x[1] == "T" else x[1]))
+        if self._restrict is not None:
+            # path-restricted recovery (see `restricted`): only definitions in blocks still reachable under the forcing
+            kept = [s_ for s_ in out if s_[0] in self._restrict]
+            if kept:
+                return kept
+        return out
+
+    def restricted(self, reach):
+        """context manager: expression recovery that joins only the definitions lying in `reach` (the blocks reachable under a forcing,
+        `Forcing.reach`).  `let x = if c {a} else {b}` recovered under c := 1 is `a`, wherever the join is consumed (struct fields,
+        helper results, tuples) — unlike q.resolve_phis, which must recognise the alternatives after the fact."""
+        body = self
+
+        class _R:
+            def __enter__(self_):
+                self_.saved = (body._memo, body._restrict)
+                body._memo = {}
+                body._restrict = set(reach)
+                return body
+
+            def __exit__(self_, *a):
+                body._memo, body._restrict = self_.saved
+                return False
+        return _R()
 
     # ------------------------------------------------------------------ K3 expression recovery
     def where(self, bb, idx=None):
@@ -444,7 +469,7 @@ class Body:
                 pass
             elif k == "field":
                 if p["owner"] == "closure" and e[0] == "closure_env":
-                    e = ("upvar", p["n"])
+                    e = mk_upvar(p["n"])
                 else:
                     e = mk_field(e, p["n"])
             elif k == "downcast":
@@ -559,6 +584,7 @@ class Body:
             callee = self.rec_operand(t["fnop"], bb, "T", depth + 1)
             return simplify_call("<indirect>", (callee,) + args)
         path = norm_name(f["resolved"] or f["path"])
+        path = self.prog.alias_names.get(path, path)          # a known function found under a new path keeps its old name in recovered expressions
         tp = norm_name(f["path"])
         if tp in ("std::convert::From::from", "std::convert::Into::into") and len(args) == 1:
             # newtype wrap/unwrap spelled as a conversion: render like the literal spelling (`CoinValue(x)` / `x.0`)
@@ -571,7 +597,8 @@ class Body:
                 return ("cast", args[0], at, dt)      # `u16::from(k)` is the lossless `k as u16`
         if tp == "std::iter::IntoIterator::into_iter" and len(args) == 1:
             at = self._op_type(t["args"][0]) or ""
-            for coll in ("std::collections::HashMap", "std::collections::BTreeMap", "std::collections::HashSet", "std::collections::BTreeSet"):
+            for coll in ("std::collections::HashMap", "std::collections::BTreeMap", "std::collections::HashSet", "std::collections::BTreeSet",
+                         "imbl::HashMap", "imbl::OrdMap", "imbl::HashSet", "imbl::OrdSet", "imbl::Vector"):
                 if at.startswith("&" + coll + "<"):
                     return ("call", coll + "::iter", (args[0],))
         if path.endswith("Option::unwrap_or_default") and len(args) == 1:
@@ -677,6 +704,10 @@ def simplify_call(path, args, trait_path=None):
             return ("call", "stdcode::StdcodeSerializeExt::stdcode", (args[0][2][0],))
     if len(args) == 1 and (path.endswith("Vec::as_slice") or path.endswith("Vec::<T, A>::as_slice") or path.endswith("::as_slice")):
         return args[0]
+    if len(args) == 2 and path.split("::")[-1] == "index" and "ops::Index<" in path:
+        i = strip(args[1])
+        if i[0] == "field" and i[2] == "0" and i[1][0] == "elem" and i[1][1][0] == "call" and i[1][1][1].endswith("Iterator::enumerate") and strip(i[1][1][2][0]) == strip(args[0]):
+            return ("field", i[1], "1")          # v[i] for i the position of enumerate(v): the element itself
     if len(args) == 1 and path in ("core::slice::<impl [T]>::first", "std::slice::<impl [T]>::first"):
         return ("call", path[:-len("first")] + "get", (args[0], ("const", "usize", 0)))      # `.first()` is `.get(0)`
     if len(args) == 3 and path.split("::")[-1] == "map_or" and ("Option" in path or "Result" in path):
@@ -739,7 +770,59 @@ def mk_try(e):
             return mk_try(a)
     if e[0] == "agg" and e[2] in ("Ok", "Some") and len(e[3]) == 1:
         return e[3][0][1]
+    b = beta_option_map(e)
+    if b is not None:
+        return b
     return ("try", e)
+
+
+def mk_upvar(name):
+    """a captured place.  Edition-2021 closures capture disjoint fields (`self.pc`, `self.instrs` — upvars `_ref__self__pc`, ..) where
+    older ones, or ones that use the whole variable, capture `self`: both read as fields of the one captured variable"""
+    pre = "_ref__" if name.startswith("_ref__") else ""
+    parts = name[len(pre):].split("__")
+    if len(parts) > 1 and all(parts):
+        e = ("upvar", pre + parts[0])
+        for f in parts[1:]:
+            e = mk_field(e, f)
+        return e
+    return ("upvar", name)
+
+
+def beta_option_map(e):
+    """payload of `x.map(|v| proj(v))` for a capture-free closure that only projects its argument (`|l| l.end`): proj(payload of x)"""
+    prog = _PROG[0]
+    if prog is None or e[0] != "call" or len(e[2]) != 2 or e[1].split("::")[-1] != "map" or not ("Option" in e[1] or "Result" in e[1]):
+        return None
+    c = strip(e[2][1])
+    if c[0] != "closure":
+        return None
+    cb = prog.body(c[1])
+    if cb is None:
+        return None
+    rets = []
+    for bi, si, st in cb.iter_stmts():
+        if st["k"] == "assign" and st["place"]["l"] == 0 and not st["place"]["p"]:
+            rets.append(cb.rec_rvalue(st["rv"], bi, si))
+    for bi, t in cb.calls():
+        if t["dest"]["l"] == 0 and not t["dest"]["p"]:
+            return None
+    if len(rets) != 1:
+        return None
+    r = strip(rets[0])
+    # a pure projection chain of the closure's parameter
+    x = r
+    while x[0] == "field" and len(x) == 3:
+        x = x[1]
+    if not (x[0] == "param" and x[1] == 2) or r == x:
+        return None
+    inner = mk_try(e[2][0])
+
+    def sub(y):
+        if y[0] == "param":
+            return inner
+        return mk_field(sub(y[1]), y[2])
+    return sub(r)
 
 
 _PROG = [None]      # the program being analysed (set by Program.__init__): lets expression constructors look into closure bodies
@@ -779,6 +862,31 @@ def flat_source(src):
     return outer, sub(strip(rets[0]))
 
 
+def param_types(b):
+    """types of the parameters of a function body (closures: none — their parameters are dictated by the adapter they are passed to)"""
+    if b.kind == "Closure":
+        return None
+    import re
+    # lifetimes and the names of generic parameters are spelling
+    return [re.sub(r"'[a-z_0-9]+ ?", "", b.locals[i]["ty"]) for i in range(1, b.arg_count + 1)]
+
+
+def range_over(src):
+    """V if src is the range 0..len(V)"""
+    s0 = strip(src)
+    if s0[0] == "agg" and s0[1].endswith("ops::Range") and len(s0[3]) == 2:
+        d = dict(s0[3])
+        st, en = d.get("start"), d.get("end")
+        if st is not None and st[0] == "const" and st[2] == 0 and en is not None:
+            en = strip(en)
+            if en[0] == "call" and en[1].split("::")[-1] == "len" and len(en[2]) == 1:
+                v = en[2][0]
+                # only a sequence that cannot change during the loop (no mutated local anywhere in its expression)
+                if not contains(v, lambda x: x[0] in ("var", "mutated", "phi", "unknown")):
+                    return v
+    return None
+
+
 def mk_vfield(e, variant, name):
     # payload of x? : Continue(v) of branch(x) is the success payload of x
     if e[0] == "branch" and variant == "Continue":
@@ -787,6 +895,10 @@ def mk_vfield(e, variant, name):
         fs = flat_source(e[1])
         if fs is not None:
             return ("elem", fs[1])          # an element of the flattened sequence is an element of the inner sequence of an outer element
+        rs = range_over(e[1])
+        if rs is not None:
+            # `for i in 0..v.len()`: i is the position component of `v.iter().enumerate()`
+            return ("field", ("elem", ("call", "std::iter::Iterator::enumerate", (rs,))), "0")
         return ("elem", e[1])
     if e[0] == "agg" and e[2] == variant:
         for (n, v) in e[3]:
@@ -941,6 +1053,8 @@ class Program:
     def __init__(self, facts_dir):
         self.facts_dir = facts_dir
         _PROG[0] = self
+        self.alias_names = {}
+        self.sig_touched = {}
         self.bodies = []
         self.by_id = {}
         self.by_nname = defaultdict(list)
@@ -985,7 +1099,12 @@ class Program:
                 self.by_nname[b.nname].append(b)
                 b.alias_of = bj.get("alias_of")
                 if bj.get("alias_of"):
-                    self.by_nname[bj["alias_of"]].append(b)      # a known function found under a new path (moved / method <-> free fn)
+                    self.by_nname[bj["alias_of"]].append(b)
+                    self.alias_names[b.nname] = bj["alias_of"]      # a known function found under a new path (moved / method <-> free fn)
+                # the parameter list the rules were written against (rules/known_items.json "sigs"): rules read parameters by position
+                base = (self.known or {}).get("sigs", {}).get(b.alias_of or b.nname)
+                cur = param_types(b)
+                b.sig_changed = (base, cur) if base is not None and base != cur else None
                 if b.inlined_into and b.id not in fnrefs:
                     continue          # fully spliced into its callers: analysed there
                 self.bodies.append(b)
@@ -1001,6 +1120,12 @@ class Program:
 
     def body(self, nname):
         """unique body with this normalised name, or whose name ends with ::<nname>"""
+        b = self._body(nname)
+        if b is not None and getattr(b, "sig_changed", None):
+            self.sig_touched[b.nname] = b.sig_changed
+        return b
+
+    def _body(self, nname):
         c = self.by_nname.get(nname)
         if c:
             return c[0]
